@@ -397,6 +397,24 @@ type Group struct {
 	RawTag       *string `json:"rawtag,omitempty"`   // tag of the group's struct field, verbatim (nested groups only)
 	OptsLast     bool    `json:"optslast,omitempty"` // the option fields are declared after the nested group fields
 	Ptr          string  `json:"ptr,omitempty"`      // nested groups: the field is a pointer to the struct: "nil" at setup, or "set"
+	// Static: the group's struct is the named, statically declared type
+	// NamedGrp (Options then mirror its fields) instead of a runtime-created
+	// anonymous struct: several fields of one declaration can share that type
+	Static bool `json:"static,omitempty"`
+}
+
+// NamedGrp is a named struct type for groups (see Group.Static).
+type NamedGrp struct {
+	Host string `long:"host" description:"host of the endpoint"`
+	Port int    `long:"port" description:"port of the endpoint"`
+}
+
+// StaticGroupOptions returns the model of NamedGrp's options with the given ID prefix.
+func StaticGroupOptions(idPrefix string) []Opt {
+	return []Opt{
+		{ID: idPrefix + "h", Field: "Host", Kind: KString, Long: "host", Desc: "host of the endpoint"},
+		{ID: idPrefix + "p", Field: "Port", Kind: KInt, Long: "port", Desc: "port of the endpoint"},
+	}
 }
 
 type PosArg struct {
@@ -816,6 +834,9 @@ func inlineBlocks(g *Group) []inlineBlock {
 // groupType builds the struct type for a group. host, when non-nil, is the
 // command whose by-tag sub-commands and positional struct live in this struct.
 func (bl *builder) groupType(g *Group, host *Cmd) reflect.Type {
+	if g.Static {
+		return reflect.TypeOf(NamedGrp{})
+	}
 	var fs []reflect.StructField
 	// untagged fields are declared partly before and partly after the options
 	for i := range g.Plain {
@@ -1312,7 +1333,14 @@ func (bl *builder) pair() {
 func (bl *builder) assignInCode() {
 	b := bl.b
 	for _, o := range bl.d.AllOpts() {
-		if len(o.InCode) == 0 {
+		attrs := o.InCode
+		static := o.Groups[len(o.Groups)-1].Static
+		if static {
+			// the struct type is declared statically: whatever the model says
+			// beyond its tags is assigned in code (names included)
+			attrs = []string{"required", "default", "choices", "hidden", "env", "optional", "desc", "valuename", "mask", "names"}
+		}
+		if len(attrs) == 0 {
 			continue
 		}
 		lo := b.LibOpt[o.ID]
@@ -1320,12 +1348,20 @@ func (bl *builder) assignInCode() {
 			b.PairErr += fmt.Sprintf(" (option %s has attributes to assign in code but was not found)", o.ID)
 			continue
 		}
-		for _, a := range o.InCode {
+		for _, a := range attrs {
 			switch a {
+			case "names":
+				lo.LongName, lo.ShortName = o.Long, 0
+				if o.Short != "" {
+					lo.ShortName = []rune(o.Short)[0]
+				}
 			case "required":
 				lo.Required = o.Required != ""
 			case "default":
 				lo.Default = append([]string(nil), o.Defaults...)
+				if len(lo.Default) == 0 {
+					lo.Default = nil
+				}
 			case "choices":
 				lo.Choices = append([]string(nil), o.Choices...)
 			case "hidden":
